@@ -1,141 +1,151 @@
 // Counterexample(s) found by Kani/CBMC for property C07, harness c07_perdoc_reset (budget::verif::c07_perdoc_reset)
-// failed checks: [{"desc": "\"whether a document may start depends on the documents read before it\"", "file": "/verif/harness/h_budget.rs", "line": 621, "fn": "budget::verif::c07_perdoc_reset"}, {"desc": "\"anchors of earlier documents are still counted\"", "file": "/verif/harness/h_budget.rs", "line": 630, "fn": "budget::verif::c07_perdoc_reset"}]
+// failed checks: [{"desc": "\"usage counters of earlier documents leak into the next document\"", "file": "/verif/harness/wb/h_budget_wb.rs", "line": 616, "fn": "budget::verif::c07_perdoc_reset"}, {"desc": "assertion failed: e1.containers.len() == e2.containers.len()", "file": "/verif/harness/wb/h_budget_wb.rs", "line": 625, "fn": "budget::verif::c07_perdoc_reset"}]
 // replay: /verif/bin/check --replay /verif/replays/C07-c07_perdoc_reset.rs
 //HARNESS c07_perdoc_reset
 /// Test generated for harness `budget::verif::c07_perdoc_reset` 
 ///
-/// Check for `assertion`: ""whether a document may start depends on the documents read before it""
+/// Check for `assertion`: ""usage counters of earlier documents leak into the next document""
 
 #[test]
-fn kani_concrete_playback_c07_perdoc_reset_14376064140806670093() {
+fn kani_concrete_playback_c07_perdoc_reset_17330570229566069130() {
     let concrete_vals: Vec<Vec<u8>> = vec![
-        // 4611686018427387903ul
-        vec![255, 255, 255, 255, 255, 255, 255, 63],
-        // 18446744073709551615ul
-        vec![255, 255, 255, 255, 255, 255, 255, 255],
-        // 18446744073709551615ul
-        vec![255, 255, 255, 255, 255, 255, 255, 255],
-        // 18446744073709551615ul
-        vec![255, 255, 255, 255, 255, 255, 255, 255],
-        // 18446744073709551615ul
-        vec![255, 255, 255, 255, 255, 255, 255, 255],
-        // 18446744073709551615ul
-        vec![255, 255, 255, 255, 255, 255, 255, 255],
-        // 18446744073709551615ul
-        vec![255, 255, 255, 255, 255, 255, 255, 255],
-        // 18446744073709551615ul
-        vec![255, 255, 255, 255, 255, 255, 255, 255],
-        // 1
-        vec![1],
-        // 18446744073709551615ul
-        vec![255, 255, 255, 255, 255, 255, 255, 255],
-        // 18446744073709551615ul
-        vec![255, 255, 255, 255, 255, 255, 255, 255],
-        // 2305843009213693951ul
-        vec![255, 255, 255, 255, 255, 255, 255, 31],
-        // 4611686018427387903ul
-        vec![255, 255, 255, 255, 255, 255, 255, 63],
-        // 4611686018427387903ul
-        vec![255, 255, 255, 255, 255, 255, 255, 63],
-        // 4611686018427387903ul
-        vec![255, 255, 255, 255, 255, 255, 255, 63],
         // 1ul
         vec![1, 0, 0, 0, 0, 0, 0, 0],
-        // 18446744073709551615ul
-        vec![255, 255, 255, 255, 255, 255, 255, 255],
-        // 4611686018427387903ul
-        vec![255, 255, 255, 255, 255, 255, 255, 63],
+        // 0ul
+        vec![0, 0, 0, 0, 0, 0, 0, 0],
+        // 0ul
+        vec![0, 0, 0, 0, 0, 0, 0, 0],
+        // 4ul
+        vec![4, 0, 0, 0, 0, 0, 0, 0],
+        // 0ul
+        vec![0, 0, 0, 0, 0, 0, 0, 0],
+        // 0ul
+        vec![0, 0, 0, 0, 0, 0, 0, 0],
+        // 0ul
+        vec![0, 0, 0, 0, 0, 0, 0, 0],
+        // 0ul
+        vec![0, 0, 0, 0, 0, 0, 0, 0],
+        // 0
+        vec![0],
+        // 0ul
+        vec![0, 0, 0, 0, 0, 0, 0, 0],
+        // 0ul
+        vec![0, 0, 0, 0, 0, 0, 0, 0],
+        // 0ul
+        vec![0, 0, 0, 0, 0, 0, 0, 0],
+        // 0ul
+        vec![0, 0, 0, 0, 0, 0, 0, 0],
+        // 0ul
+        vec![0, 0, 0, 0, 0, 0, 0, 0],
+        // 0ul
+        vec![0, 0, 0, 0, 0, 0, 0, 0],
+        // 4ul
+        vec![4, 0, 0, 0, 0, 0, 0, 0],
+        // 0ul
+        vec![0, 0, 0, 0, 0, 0, 0, 0],
+        // 0ul
+        vec![0, 0, 0, 0, 0, 0, 0, 0],
         // 1ul
         vec![1, 0, 0, 0, 0, 0, 0, 0],
-        // 4611686018427387903ul
-        vec![255, 255, 255, 255, 255, 255, 255, 63],
-        // 4611686018427387903ul
-        vec![255, 255, 255, 255, 255, 255, 255, 63],
-        // 4611686018427387903ul
-        vec![255, 255, 255, 255, 255, 255, 255, 63],
-        // 4611686018427387903ul
-        vec![255, 255, 255, 255, 255, 255, 255, 63],
-        // 4611686018427387903ul
-        vec![255, 255, 255, 255, 255, 255, 255, 63],
-        // 18446744073709551615ul
-        vec![255, 255, 255, 255, 255, 255, 255, 255],
-        // 4611686018427387903ul
-        vec![255, 255, 255, 255, 255, 255, 255, 63],
-        // 4611686018427387903ul
-        vec![255, 255, 255, 255, 255, 255, 255, 63],
-        // 1ul
-        vec![1, 0, 0, 0, 0, 0, 0, 0],
-        // 1
-        vec![1],
+        // 0ul
+        vec![0, 0, 0, 0, 0, 0, 0, 0],
+        // 0ul
+        vec![0, 0, 0, 0, 0, 0, 0, 0],
+        // 0ul
+        vec![0, 0, 0, 0, 0, 0, 0, 0],
+        // 0ul
+        vec![0, 0, 0, 0, 0, 0, 0, 0],
+        // 0ul
+        vec![0, 0, 0, 0, 0, 0, 0, 0],
+        // 0ul
+        vec![0, 0, 0, 0, 0, 0, 0, 0],
+        // 0ul
+        vec![0, 0, 0, 0, 0, 0, 0, 0],
+        // 0ul
+        vec![0, 0, 0, 0, 0, 0, 0, 0],
+        // 0ul
+        vec![0, 0, 0, 0, 0, 0, 0, 0],
+        // 0
+        vec![0],
+        // 0
+        vec![0],
     ];
     kani::concrete_playback_run(concrete_vals, c07_perdoc_reset);
 }
 
 /// Test generated for harness `budget::verif::c07_perdoc_reset` 
 ///
-/// Check for `assertion`: ""anchors of earlier documents are still counted""
+/// Check for `assertion`: "assertion failed: e1.containers.len() == e2.containers.len()"
 
 #[test]
-fn kani_concrete_playback_c07_perdoc_reset_2758565145743080952() {
+fn kani_concrete_playback_c07_perdoc_reset_15167850633963621883() {
     let concrete_vals: Vec<Vec<u8>> = vec![
-        // 18446744073709551615ul
-        vec![255, 255, 255, 255, 255, 255, 255, 255],
-        // 18446744073709551615ul
-        vec![255, 255, 255, 255, 255, 255, 255, 255],
-        // 18446744073709551615ul
-        vec![255, 255, 255, 255, 255, 255, 255, 255],
-        // 18446744073709551615ul
-        vec![255, 255, 255, 255, 255, 255, 255, 255],
-        // 18446744073709551615ul
-        vec![255, 255, 255, 255, 255, 255, 255, 255],
-        // 18446744073709551615ul
-        vec![255, 255, 255, 255, 255, 255, 255, 255],
-        // 18446744073709551615ul
-        vec![255, 255, 255, 255, 255, 255, 255, 255],
-        // 18446744073709551615ul
-        vec![255, 255, 255, 255, 255, 255, 255, 255],
+        // 1ul
+        vec![1, 0, 0, 0, 0, 0, 0, 0],
+        // 0ul
+        vec![0, 0, 0, 0, 0, 0, 0, 0],
+        // 0ul
+        vec![0, 0, 0, 0, 0, 0, 0, 0],
+        // 4ul
+        vec![4, 0, 0, 0, 0, 0, 0, 0],
+        // 0ul
+        vec![0, 0, 0, 0, 0, 0, 0, 0],
+        // 0ul
+        vec![0, 0, 0, 0, 0, 0, 0, 0],
+        // 0ul
+        vec![0, 0, 0, 0, 0, 0, 0, 0],
+        // 0ul
+        vec![0, 0, 0, 0, 0, 0, 0, 0],
+        // 0
+        vec![0],
+        // 0ul
+        vec![0, 0, 0, 0, 0, 0, 0, 0],
+        // 0ul
+        vec![0, 0, 0, 0, 0, 0, 0, 0],
+        // 0ul
+        vec![0, 0, 0, 0, 0, 0, 0, 0],
+        // 0ul
+        vec![0, 0, 0, 0, 0, 0, 0, 0],
+        // 0ul
+        vec![0, 0, 0, 0, 0, 0, 0, 0],
+        // 0ul
+        vec![0, 0, 0, 0, 0, 0, 0, 0],
+        // 4ul
+        vec![4, 0, 0, 0, 0, 0, 0, 0],
+        // 0ul
+        vec![0, 0, 0, 0, 0, 0, 0, 0],
+        // 0ul
+        vec![0, 0, 0, 0, 0, 0, 0, 0],
+        // 0ul
+        vec![0, 0, 0, 0, 0, 0, 0, 0],
+        // 0ul
+        vec![0, 0, 0, 0, 0, 0, 0, 0],
+        // 0ul
+        vec![0, 0, 0, 0, 0, 0, 0, 0],
+        // 0ul
+        vec![0, 0, 0, 0, 0, 0, 0, 0],
+        // 0ul
+        vec![0, 0, 0, 0, 0, 0, 0, 0],
+        // 0ul
+        vec![0, 0, 0, 0, 0, 0, 0, 0],
+        // 0ul
+        vec![0, 0, 0, 0, 0, 0, 0, 0],
+        // 0ul
+        vec![0, 0, 0, 0, 0, 0, 0, 0],
+        // 0ul
+        vec![0, 0, 0, 0, 0, 0, 0, 0],
+        // 0ul
+        vec![0, 0, 0, 0, 0, 0, 0, 0],
         // 1
         vec![1],
-        // 18446744073709551615ul
-        vec![255, 255, 255, 255, 255, 255, 255, 255],
-        // 18446744073709551615ul
-        vec![255, 255, 255, 255, 255, 255, 255, 255],
-        // 4611686018427387903ul
-        vec![255, 255, 255, 255, 255, 255, 255, 63],
-        // 4611686018427387903ul
-        vec![255, 255, 255, 255, 255, 255, 255, 63],
-        // 4611686018427387903ul
-        vec![255, 255, 255, 255, 255, 255, 255, 63],
-        // 4611686018427387903ul
-        vec![255, 255, 255, 255, 255, 255, 255, 63],
-        // 4611686018427387903ul
-        vec![255, 255, 255, 255, 255, 255, 255, 63],
-        // 18446744073709551615ul
-        vec![255, 255, 255, 255, 255, 255, 255, 255],
-        // 4611686018427387903ul
-        vec![255, 255, 255, 255, 255, 255, 255, 63],
-        // 4611686018427387903ul
-        vec![255, 255, 255, 255, 255, 255, 255, 63],
-        // 4611686018427387903ul
-        vec![255, 255, 255, 255, 255, 255, 255, 63],
-        // 4611686018427387903ul
-        vec![255, 255, 255, 255, 255, 255, 255, 63],
-        // 4611686018427387903ul
-        vec![255, 255, 255, 255, 255, 255, 255, 63],
-        // 4611686018427387903ul
-        vec![255, 255, 255, 255, 255, 255, 255, 63],
-        // 4611686018427387903ul
-        vec![255, 255, 255, 255, 255, 255, 255, 63],
-        // 18446744073709551615ul
-        vec![255, 255, 255, 255, 255, 255, 255, 255],
-        // 4611686018427387903ul
-        vec![255, 255, 255, 255, 255, 255, 255, 63],
-        // 4611686018427387903ul
-        vec![255, 255, 255, 255, 255, 255, 255, 63],
-        // 2ul
-        vec![2, 0, 0, 0, 0, 0, 0, 0],
-        // 1
-        vec![1],
+        // 0
+        vec![0],
+        // 0
+        vec![0],
+        // 0
+        vec![0],
+        // 0
+        vec![0],
     ];
     kani::concrete_playback_run(concrete_vals, c07_perdoc_reset);
 }
